@@ -108,8 +108,8 @@ CLAIMS.update({
             "guard), N1 (sentinel overrides: tested variable = replaced variable, world's constant / adiabat, no dead override), closed "
             "forms of uniform/adiabatic/linear, cooling models, Gaussian plume (incl. shorter-arc angle interpolation and ellipse equation), smooth composition blend; local depth bounds used once "
             "defined (DEP.surfaces.local); distance and velocity of the cooling age from one ridge candidate; one source per physical parameter "
-            "inside a model (PARAM.source); Chapman geotherm T_top + (q/k) dz - (A/2k) dz^2 from the clipped top. Mass-conserving and tian2019 "
-            "recipes are not decided",
+            "inside a model (PARAM.source); Chapman geotherm T_top + (q/k) dz - (A/2k) dz^2 from the clipped top; the slab plate model as McKenzie's series (term and final expression). "
+            "Mass-conserving and tian2019 recipes are not decided",
             "§3.5, §3.6, §4 C05"),
     "C06": ("normalised membership relations + call-site agreement + sibling cross-check + symbolic evaluation of the segment step",
             "slab/fault membership predicates over (distance from plane, distance along plane), inclusive depth gate, agreement of the "
